@@ -139,4 +139,14 @@ def bilinJvp (na nb : Nat) (B : Nat → Nat → Nat → ℝ) : Jvp := fun xs ts 
   | [a, b], [ta, tb] => [fun j => ∑ i ∈ range na, ∑ i' ∈ range nb, B j i i' * (ta i * b i' + a i * tb i')]
   | _, _ => []
 
+/-! ### constant operators -/
+
+/-- an operator without arguments that returns fixed values (Input, Constant, zeros, ones, identity) -/
+def constOp (vals : List (Vec ℝ)) : OpSem (Vec ℝ) where
+  nret := vals.length
+  fwd := fun xs => match xs with
+    | [] => some vals
+    | _ => none
+  bwd := fun _ _ _ => []
+
 end Primitiv.Graph
